@@ -286,4 +286,146 @@ func F(a0 int) int {
 	return s.A
 }
 `},
+	{name: "two-init-functions", fns: intFn, reset: "\tg0 = 5\n\tg2 = g0 + 1\n\tg2++", src: `
+var g0 = 5
+var g2 = g0 + 1
+
+func init() {
+	g2++
+}
+
+func init() {
+}
+
+func F(a0 int) int {
+	return g0 + a0
+}
+`},
+	{name: "switch-early-default-swap:fallthrough", fns: intFn, src: `
+func F(a0 int) int {
+	r := 0
+	switch a0 {
+	case 0:
+		r += 1
+		fallthrough
+	default:
+		r += 10
+	case 1:
+		r += 100
+	}
+	return r
+}
+`},
+	{name: "defer-without-recover-lets-panic-through", fns: intFn, reset: "\tglog = 0", src: `
+var glog = 0
+
+func note(d int) {
+	glog = glog*10 + d
+}
+
+func work(a0 int) int {
+	defer note(6)
+	if a0 == 1 {
+		panic("x")
+	}
+	return a0
+}
+
+func F(a0 int) int {
+	return work(a0) + 100
+}
+`},
+	{name: "switch-early-default-swap:case-order", fns: intFn, src: `
+func F(a0 int) int {
+	r := 0
+	switch {
+	default:
+		r = 1
+	case a0 >= 1:
+		r = 10
+	case a0 >= 2:
+		r = 100
+	}
+	return r
+}
+`},
+	{name: "nil-slice-operations", fns: []directedFn{
+		{name: "F", params: []ty{tInt}, ret: tInt}, {name: "G", params: []ty{tInt}, ret: tInt},
+		{name: "H", params: []ty{tInt}, ret: tInt}, {name: "I", params: []ty{tInt}, ret: tInt}}, src: `
+func F(a0 int) int {
+	var v []byte
+	w := []byte{1, 2}
+	if a0 > 1 {
+		v = append(v, 7)
+	}
+	n := copy(w, v)
+	return n*10 + int(w[0])
+}
+
+func G(a0 int) int {
+	var v []byte
+	var w []byte
+	if a0 > 1 {
+		w = append(w, 7)
+	}
+	v = append(v, w...)
+	return len(v)
+}
+
+func H(a0 int) int {
+	var v []byte
+	if a0 > 1 {
+		v = append(v, 65)
+	}
+	s := string(v)
+	return len(s[0:])
+}
+
+func index(a0 int) int {
+	defer func() {
+		recover()
+	}()
+	var v []int
+	if a0 > 1 {
+		v = append(v, 7)
+	}
+	x := v[0]
+	return x
+}
+
+func I(a0 int) int {
+	return index(a0) + 100
+}
+`},
+	{name: "append-of-several-elements-reading-the-slice", fns: intFn, src: `
+func F(a0 int) int {
+	v := []int{5, 6}
+	v = append(v, a0, v[len(v)-1])
+	return v[3]*10 + len(v)
+}
+`},
+	{name: "shadowing-var-declaration-reads-outer-variable", fns: intFn, src: `
+func F(a0 int) int {
+	r := 0
+	{
+		var a0 int = a0 + 1
+		r = a0
+	}
+	return r*10 + a0
+}
+`},
+	{name: "slice-of-constant-string", fns: intFn, src: `
+const prefix = "abc"
+
+func F(a0 int) int {
+	r := a0
+	if prefix[1:] == "bc" {
+		r += 10
+	}
+	if ("a" + "b")[0:] == "ab" {
+		r += 100
+	}
+	return r
+}
+`},
 }
